@@ -12794,43 +12794,66 @@ let implicit_level l c =
 let dir_of_level l =
   if Nat.even l then L else R
 
-(** val resolve_sequence :
-    bclass list -> bclass list -> (n * bool) option list -> nat option list
-    -> nat -> nat list -> nat list -> (nat * nat) list **)
+(** val lev_at : nat option list -> nat -> nat -> nat **)
 
-let resolve_sequence cls0 cls brk xlev pl idx sq =
-  let lv = fun i -> match snth xlev i None with
-                    | Some l -> l
-                    | None -> pl in
+let lev_at xlev pl i =
+  match snth xlev i None with
+  | Some l -> l
+  | None -> pl
+
+(** val seq_sos : nat option list -> nat -> nat list -> nat list -> bclass **)
+
+let seq_sos xlev pl idx sq =
   let first = first_of sq in
+  let pred =
+    match rev (filter (fun i -> Nat.ltb i first) idx) with
+    | [] -> pl
+    | i :: _ -> lev_at xlev pl i
+  in
+  dir_of_level (Nat.max (lev_at xlev pl first) pred)
+
+(** val seq_eos :
+    bclass list -> nat option list -> nat -> nat list -> nat list -> bclass **)
+
+let seq_eos cls0 xlev pl idx sq =
   let last_ = last_of sq in
-  let slev = lv first in
-  let before = filter (fun i -> Nat.ltb i first) idx in
-  let after = filter (fun i -> Nat.ltb last_ i) idx in
-  let pred = match rev before with
-             | [] -> pl
-             | i :: _ -> lv i in
   let succ0 =
     if (&&) (is_init (snth cls0 last_ ON))
          (match matching_pdi cls0 last_ with
           | Some _ -> false
           | None -> true)
     then pl
-    else (match after with
+    else (match filter (fun i -> Nat.ltb last_ i) idx with
           | [] -> pl
-          | i :: _ -> lv i)
+          | i :: _ -> lev_at xlev pl i)
   in
-  let sos = dir_of_level (Nat.max slev pred) in
-  let eos = dir_of_level (Nat.max (lv last_) succ0) in
-  let t0 = map (fun i -> snth cls i ON) sq in
+  dir_of_level (Nat.max (lev_at xlev pl last_) succ0)
+
+(** val resolve_classes :
+    bclass -> bclass -> bclass -> (n * bool) option list -> bclass list ->
+    bclass list **)
+
+let resolve_classes sos eos edir brks t0 =
   let orig_nsm = map (fun c -> ceq c NSM) t0 in
   let t1 = weak sos t0 in
-  let edir = dir_of_level slev in
-  let pairs = bracket_pairs t1 (map (fun i -> snth brk i None) sq) in
+  let pairs = bracket_pairs t1 brks in
   let t2 = fold_left (n0_one sos edir orig_nsm) pairs t1 in
-  let t3 = neutral sos eos edir t2 in
-  map (fun ic -> ((fst ic), (implicit_level (lv (fst ic)) (snd ic))))
-    (combine sq t3)
+  neutral sos eos edir t2
+
+(** val resolve_sequence :
+    bclass list -> bclass list -> (n * bool) option list -> nat option list
+    -> nat -> nat list -> nat list -> (nat * nat) list **)
+
+let resolve_sequence cls0 cls brk xlev pl idx sq =
+  let sos = seq_sos xlev pl idx sq in
+  let eos = seq_eos cls0 xlev pl idx sq in
+  let edir = dir_of_level (lev_at xlev pl (first_of sq)) in
+  let t3 =
+    resolve_classes sos eos edir (map (fun i -> snth brk i None) sq)
+      (map (fun i -> snth cls i ON) sq)
+  in
+  map (fun ic -> ((fst ic),
+    (implicit_level (lev_at xlev pl (fst ic)) (snd ic)))) (combine sq t3)
 
 (** val assoc_nat : nat -> (nat * nat) list -> nat option **)
 
